@@ -613,6 +613,14 @@ func valueAddressRecord(rec *addressRecord) []byte {
 	return v
 }
 
+// addressRecordPaymentMark follows the height in the record of an address that
+// was not issued in that form but created by the first payment in that form.
+const addressRecordPaymentMark = 0x01
+
+func addressRecordFromPayment(v []byte) bool {
+	return len(v) > 8 && v[8] == addressRecordPaymentMark
+}
+
 func putRawAddressRecord(ns mwdb.Bucket, k, v []byte) error {
 	return ns.Put(k, v)
 }
